@@ -170,7 +170,9 @@ def fieldInDomain (f : Field) (v : Val) : Bool :=
         !(isStripWs (fmt.headD ' ')) && !(isStripWs (fmt.getLastD ' '))
      | [] => false)
   | .date fmts, _ => !fmts.isEmpty && fmts.all Spec.C03.fmtOk
-  | .lit, .str s => noControl s && !(isStripWs (s.headD 'x'))   -- blank-trimmed on the left
+  | .lit, .str s =>
+    -- canonical position: the blank-trimmed text followed by plain blanks only
+    noControl s && s == strip s ++ List.replicate (s.length - (strip s).length) ' '
   | _, _ => true
 
 def inDomain (fs : List Field) (vs : List Val) : Bool :=
